@@ -1,7 +1,7 @@
 (* The AckManager model satisfies the executable C08 judgement on every operation sequence
    (judge_run), and with it the ack_deadline statement. *)
 From SQ Require Import lib.Base lib.ListX gen.Gen_C08 model.AckManager proofs.AckManagerProofs proofs.AckRangesLemmas.
-From Coq Require Import FinFun.
+From Coq Require Import FinFun Sorting.Sorted.
 Local Open Scope N_scope.
 
 (* ---------------- helpers about the judgement's own functions ---------------- *)
@@ -411,7 +411,6 @@ Proof.
   - constructor; rewrite ?Tcfg, ?Trng, ?Hprocd', ?Hnproc', ?Hlack', ?Hmt; fold lim; fold mad; auto; try (unfold now'; lia).
     + rewrite Ttm. intros d Hd; discriminate.
     + rewrite Hpend'. intros p t [].
-    + rewrite Hpend'. intros H; contradiction.
     + rewrite Hpend', Hcov'. cbn [app]. intros p t Hp. destruct (Iarr _ _ Hp). split; [unfold now'; lia|assumption].
     + rewrite Hpend', Hcov'. cbn [app]. assumption.
     + rewrite Hpend', Hcov'. cbn [app]. assumption.
@@ -443,4 +442,484 @@ Proof.
       assert (Hab : a <= b). { unfold WF in Iw. rewrite Forall_forall in Iw. apply (Iw _ Hr). }
       apply range_processed_ok; [assumption|]. intros x Hx. apply Isub. eapply in_ranges_member; eassumption.
     + apply deadline_from. rewrite Hpend'. intros p t [].
+Qed.
+
+Definition la_of (lo hi : N) (base : Z) (fs : list jframe) : Z :=
+  fold_right (fun f m => if (lo <=? j_pkt f) && (j_pkt f <=? hi)
+                         then Z.max (Nz (largest_hi (j_rl f))) m else m) base fs.
+
+Lemma la_of_ge : forall lo hi base fs, (base <= la_of lo hi base fs)%Z /\
+  forall f, In f fs -> lo <= j_pkt f <= hi -> (Nz (largest_hi (j_rl f)) <= la_of lo hi base fs)%Z.
+Proof.
+  induction fs as [|g t [IH1 IH2]]; cbn [la_of fold_right].
+  - split; [lia|intros f []].
+  - fold (la_of lo hi base t). split.
+    + destruct ((lo <=? j_pkt g) && (j_pkt g <=? hi)); lia.
+    + intros f [<-|Hf] Hr.
+      * destruct (N.leb_spec lo (j_pkt g)); [|lia]. destruct (N.leb_spec (j_pkt g) hi); [|lia]. cbn [andb]. lia.
+      * specialize (IH2 f Hf Hr). destruct ((lo <=? j_pkt g) && (j_pkt g <=? hi)); lia.
+Qed.
+
+Lemma filter_nil_ne : forall {A} (f : A -> bool) l, filter f l <> [] -> l <> [].
+Proof. intros A f [|a t] H; [exact H|discriminate]. Qed.
+
+Lemma in_filter_app : forall {A} (f : A -> bool) l1 l2 x,
+  In x (filter f l1 ++ filter f l2) -> In x (l1 ++ l2) /\ f x = true.
+Proof.
+  intros A f l1 l2 x H. apply in_app_or in H as [H|H]; apply filter_In in H as [H1 H2]; split; auto using in_app_l, in_app_r.
+Qed.
+
+(* ---- the peer acknowledged packets lo..=hi ---- *)
+Lemma step_ack : forall now s rf a b,
+  Inv now s rf ->
+  let s' := on_packet_ack s (N.min a b) (N.max a b) in
+  let rf' := ref_step (ranges_limit (cfg s)) now rf (OAck a b) None in
+  Inv now s' rf' /\ cfg s' = cfg s /\
+  check (max_ack_delay (cfg s)) rf rf' (OAck a b) None (optz (timer s')) (bz (is_active (ts s'))) = true.
+Proof.
+  intros now s rf a b I s' rf'.
+  destruct I as [Ic Il Iw [Ilen1 Ilen2] Isub Ib Imax It Idl Ind Iarr Icov Iin Iaet Ile Ilast].
+  set (lo := N.min a b) in *. set (hi := N.max a b) in *.
+  set (la := la_of lo hi (lacked rf) (frames rf)).
+  destruct (la_of_ge lo hi (lacked rf) (frames rf)) as [Hla0 Hla1]. fold la in Hla0, Hla1.
+  assert (Hpend' : pend rf' = filter (fun pa => (la <? Nz (fst pa))%Z) (pend rf)) by reflexivity.
+  assert (Hcov' : cov rf' = filter (fun pa => (la <? Nz (fst pa))%Z) (cov rf)) by reflexivity.
+  assert (Hlack' : lacked rf' = la) by reflexivity.
+  assert (Hframes' : frames rf' = frames rf) by reflexivity.
+  assert (Hprocd' : procd rf' = procd rf) by reflexivity.
+  assert (Hnproc' : nproc rf' = nproc rf) by reflexivity.
+  clearbody rf'.
+  unfold on_packet_ack in s'.
+  destruct (aet_on_update (stable s) (latest s) lo hi) as [[st' la'] r] eqn:Ea.
+  apply aet_ok in Ea. destruct Ea as [Asub Ahit Ala].
+  set (rng' := match r with Some x => remove_upto x (rng s) | None => rng s end) in *.
+  assert (Hcfg : cfg s' = cfg s) by reflexivity.
+  assert (Hrng : rng s' = rng') by reflexivity.
+  assert (Hts : ts s' = ts s) by reflexivity.
+  assert (Htm : timer s' = timer s) by reflexivity.
+  assert (Hst : stable s' = st') by reflexivity.
+  assert (Hlat : latest s' = la') by reflexivity.
+  clearbody s'.
+  assert (Hx : forall x, r = Some x -> (Nz x <= la)%Z).
+  { intros x Hr. destruct (Ahit x Hr) as [pk [Hs Hrg]]. destruct (Iaet pk x Hs) as [f [Hf [Hp Hl]]].
+    rewrite <- Hl. apply Hla1; [assumption|]. rewrite Hp. assumption. }
+  assert (Hkeep : forall y, in_ranges y (rng s) = true -> (la < Nz y)%Z -> in_ranges y rng' = true).
+  { intros y Hy Hly. unfold rng'. destruct r as [x|]; [|assumption].
+    apply remove_upto_keeps; [assumption|]. specialize (Hx x eq_refl). unfold Nz in *. lia. }
+  assert (Hmem : forall p t, In (p, t) (pend rf' ++ cov rf') -> In (p, t) (pend rf ++ cov rf) /\ (la < Nz p)%Z).
+  { intros p t Hp. rewrite Hpend', Hcov' in Hp. apply in_filter_app in Hp as [H1 H2]. split; [assumption|].
+    apply Z.ltb_lt in H2. assumption. }
+  split; [|split; [assumption|]].
+  - constructor; rewrite ?Hcfg, ?Hrng, ?Hts, ?Htm, ?Hprocd', ?Hnproc', ?Hlack', ?Hframes'; auto.
+    + unfold rng'. destruct r; [apply remove_upto_wf|]; assumption.
+    + unfold rng'. destruct r as [x|]; [|auto]. pose proof (remove_upto_len (rng s) x). split; lia.
+    + intros x Hxr. apply Isub. unfold rng' in Hxr. destruct r; [eapply remove_upto_in; eassumption|assumption].
+    + (* i_max *)
+      intros m Hm. unfold max_tracked in Hm. rewrite Hprocd', Hlack' in Hm.
+      pose proof (max_list_in _ _ Hm) as Hin. apply filter_In in Hin as [Hinp Hlt]. apply Z.ltb_lt in Hlt.
+      assert (Hin0 : In m (filter (fun p => (lacked rf <? Nz p)%Z) (procd rf))).
+      { apply filter_In. split; [assumption|]. apply Z.ltb_lt. lia. }
+      destruct (max_tracked rf) as [m0|] eqn:Em0.
+      2:{ unfold max_tracked in Em0. apply max_list_none in Em0. rewrite Em0 in Hin0. destruct Hin0. }
+      pose proof (max_list_ge _ _ _ Em0 Hin0) as Hle.
+      pose proof (max_tracked_some rf m0 Em0) as [Hm0p _].
+      assert (m0 = m).
+      { destruct (Z.ltb_spec la (Nz m0)) as [H|H].
+        - assert (In m0 (filter (fun p => (la <? Nz p)%Z) (procd rf))) by (apply filter_In; split; [assumption|apply Z.ltb_lt; assumption]).
+          pose proof (max_list_ge _ _ _ Hm H0). lia.
+        - unfold Nz in *. lia. }
+      subst m0. pose proof (Imax m eq_refl) as Hmv. apply max_value_some in Hmv as [Hne Hlg].
+      unfold rng'. destruct r as [x|]; [|rewrite max_value_ne by assumption; congruence].
+      specialize (Hx x eq_refl).
+      destruct (remove_upto_largest (rng s) x Iw ltac:(unfold Nz in *; lia)) as [Hne' Hlg'].
+      rewrite max_value_ne by assumption. congruence.
+    + intros p t Hp. rewrite Hpend' in Hp. apply filter_In in Hp as [Hp _].
+      destruct (Idl _ _ Hp) as [H|[d [Hd Hle]]]; [left; rewrite Hts; assumption|right; exists d; rewrite Htm; auto].
+    + rewrite Hpend'. intros H. apply Ind. eapply filter_nil_ne; eassumption.
+    + intros p t Hp. destruct (Hmem _ _ Hp) as [H1 H2]. destruct (Iarr _ _ H1). auto.
+    + intros p t Hp. destruct (Hmem _ _ Hp) as [H1 H2]. destruct (Icov _ _ H1) as [y [Hy Hin]].
+      exists y. split; [assumption|]. apply Hkeep; [assumption|]. unfold Nz in *. lia.
+    + intros Hn p t Hp. destruct (Hmem _ _ Hp) as [H1 H2]. apply Hkeep; [|assumption]. apply Iin with t; assumption.
+    + intros pk x Hs. rewrite Hst, Hlat in Hs. apply Iaet. apply Asub. assumption.
+    + (* i_last *)
+      rewrite Hcov'. intros Hc. pose proof (filter_nil_ne _ _ Hc) as Hc0.
+      destruct (Ilast Hc0) as (h & tl & Hf & Hcv & He). exists h, tl. split; [assumption|]. split.
+      * intros p t Hp. apply filter_In in Hp as [Hp _]. apply Hcv; assumption.
+      * intros Hel. specialize (He Hel). destruct (j_lost h); [assumption|].
+        rewrite Hlat. destruct (Ala _ _ He) as [A1 A2]. rewrite <- He. apply A2. intros Hrg.
+        (* the carrier of the newest frame was acknowledged: nothing stays covered *)
+        apply Hc. apply filter_none. intros [p t] Hp. destruct (Hcv _ _ Hp) as [Hple _].
+        apply Z.ltb_ge. cbn [fst].
+        assert (Hh : In h (frames rf)) by (rewrite Hf; left; reflexivity).
+        specialize (Hla1 h Hh Hrg). unfold Nz in *. lia.
+  - unfold check. cbn [andb]. apply deadline_from.
+    intros p t Hp. rewrite Hpend' in Hp. apply filter_In in Hp as [Hp _].
+    destruct (Idl _ _ Hp) as [H|[d [Hd Hle]]]; [left; rewrite Hts; assumption|right; exists d; rewrite Htm; auto].
+Qed.
+
+(* ---- a timeout ---- *)
+Lemma step_timeout : forall now s rf dt,
+  Inv now s rf ->
+  let now' := now + dt in
+  let s' := on_timeout s now' in
+  Inv now' s' rf /\ cfg s' = cfg s /\
+  check (max_ack_delay (cfg s)) rf rf (OTimeout dt) None (optz (timer s')) (bz (is_active (ts s'))) = true.
+Proof.
+  intros now s rf dt I now' s'.
+  destruct I as [Ic Il Iw [Ilen1 Ilen2] Isub Ib Imax It Idl Ind Iarr Icov Iin Iaet Ile Ilast].
+  assert (Hdl' : owes_ok (max_ack_delay (cfg s)) s' (pend rf)).
+  { intros p t Hp. unfold s', on_timeout. destruct (expired (timer s) (tstamp now')) eqn:Ee; cbn [ts timer].
+    - left. destruct (Idl _ _ Hp) as [H|_]; [apply activate_idem; assumption|].
+      apply activate_active. apply Ind. intros E. rewrite E in Hp. destruct Hp.
+    - exact (Idl _ _ Hp). }
+  assert (Hcfg : cfg s' = cfg s) by (unfold s', on_timeout; destruct (expired _ _); reflexivity).
+  split; [|split; [assumption|]].
+  - unfold s', on_timeout in *. destruct (expired (timer s) (tstamp now')) eqn:Ee;
+      constructor; cbn [cfg rng ts timer stable latest]; auto; try (unfold now'; lia).
+    + intros d Hd; discriminate.
+    + intros H. apply activate_nd. auto.
+    + intros p t Hp. destruct (Iarr _ _ Hp). split; [unfold now'; lia|assumption].
+    + intros Hc. destruct (Ilast Hc) as (h & tl & Hf & Hcv & He). exists h, tl. split; [assumption|]. split; [assumption|].
+      intros Hel. specialize (He Hel). destruct (j_lost h); [apply activate_idem; assumption|assumption].
+    + intros d Hd. specialize (It _ Hd). unfold now'. lia.
+    + intros p t Hp. destruct (Iarr _ _ Hp). split; [unfold now'; lia|assumption].
+  - unfold check. cbn [andb]. apply deadline_from. assumption.
+Qed.
+
+(* ---- packets lo..=hi were declared lost ---- *)
+Definition mark (lo hi : N) (f : jframe) : jframe :=
+  if j_elic f && (lo <=? j_pkt f) && (j_pkt f <=? hi)
+  then {| j_pkt := j_pkt f; j_elic := j_elic f; j_rl := j_rl f; j_all := j_all f; j_time := j_time f; j_lost := true |}
+  else f.
+
+Lemma mark_same : forall lo hi f, j_pkt (mark lo hi f) = j_pkt f /\ j_rl (mark lo hi f) = j_rl f /\
+  j_all (mark lo hi f) = j_all f /\ j_time (mark lo hi f) = j_time f /\ j_elic (mark lo hi f) = j_elic f.
+Proof. intros. unfold mark. destruct (j_elic f && (lo <=? j_pkt f) && (j_pkt f <=? hi)); cbn; auto. Qed.
+
+Lemma mark_lost : forall lo hi f, j_lost (mark lo hi f) = true ->
+  j_lost f = true \/ (j_elic f = true /\ lo <= j_pkt f <= hi).
+Proof.
+  intros lo hi f H. unfold mark in H. destruct (j_elic f) eqn:Ee; cbn [andb] in H; [|left; assumption].
+  destruct (N.leb_spec lo (j_pkt f)); cbn [andb] in H; [|left; assumption].
+  destruct (N.leb_spec (j_pkt f) hi); [right; auto|left; assumption].
+Qed.
+
+Lemma mark_notlost : forall lo hi f, j_elic f = true -> j_lost (mark lo hi f) = false ->
+  j_lost f = false /\ ~ (lo <= j_pkt f <= hi).
+Proof.
+  intros lo hi f He H. unfold mark in H. rewrite He in H. cbn [andb] in H.
+  destruct (N.leb_spec lo (j_pkt f)); cbn [andb] in H; [|split; [assumption|lia]].
+  destruct (N.leb_spec (j_pkt f) hi); [discriminate|split; [assumption|lia]].
+Qed.
+
+Lemma step_loss : forall now s rf a b,
+  Inv now s rf ->
+  let s' := on_packet_loss s (N.min a b) (N.max a b) in
+  let rf' := ref_step (ranges_limit (cfg s)) now rf (OLoss a b) None in
+  Inv now s' rf' /\ cfg s' = cfg s /\
+  check (max_ack_delay (cfg s)) rf rf' (OLoss a b) None (optz (timer s')) (bz (is_active (ts s'))) = true.
+Proof.
+  intros now s rf a b I s' rf'.
+  destruct I as [Ic Il Iw [Ilen1 Ilen2] Isub Ib Imax It Idl Ind Iarr Icov Iin Iaet Ile Ilast].
+  set (lo := N.min a b) in *. set (hi := N.max a b) in *.
+  set (frames' := map (mark lo hi) (frames rf)).
+  set (covered := fun pa : N * N => existsb (fun f => covers f pa) frames').
+  assert (Hpend' : pend rf' = filter (fun pa => negb (covered pa)) (cov rf) ++ pend rf) by reflexivity.
+  assert (Hcov' : cov rf' = filter covered (cov rf)) by reflexivity.
+  assert (Hframes' : frames rf' = frames') by reflexivity.
+  assert (Hlack' : lacked rf' = lacked rf) by reflexivity.
+  assert (Hprocd' : procd rf' = procd rf) by reflexivity.
+  assert (Hnproc' : nproc rf' = nproc rf) by reflexivity.
+  assert (Hmt : max_tracked rf' = max_tracked rf) by reflexivity.
+  clearbody rf'.
+  unfold on_packet_loss in s'.
+  destruct (aet_on_update (stable s) (latest s) lo hi) as [[st' la'] r] eqn:Ea.
+  apply aet_ok in Ea. destruct Ea as [Asub Ahit Ala].
+  set (ts' := match r with Some _ => activate (ts_on_update (ts s) (rng s)) | None => ts s end) in *.
+  assert (Hcfg : cfg s' = cfg s) by reflexivity.
+  assert (Hrng : rng s' = rng s) by reflexivity.
+  assert (Hts : ts s' = ts') by reflexivity.
+  assert (Htm : timer s' = timer s) by reflexivity.
+  assert (Hst : stable s' = st') by reflexivity.
+  assert (Hlat : latest s' = la') by reflexivity.
+  clearbody s'.
+  assert (Hmem : forall pa, In pa (pend rf' ++ cov rf') -> In pa (pend rf ++ cov rf)).
+  { intros pa Hp. rewrite Hpend', Hcov' in Hp. apply in_app_or in Hp as [Hp|Hp].
+    - apply in_app_or in Hp as [Hp|Hp]; [apply filter_In in Hp as [Hp _]; apply in_app_r; assumption|apply in_app_l; assumption].
+    - apply filter_In in Hp as [Hp _]. apply in_app_r; assumption. }
+  (* the transmission state stays usable whenever something is owed or covered *)
+  assert (Hnd : forall pa, In pa (pend rf ++ cov rf) -> ts s <> Disabled -> ts' <> Disabled).
+  { intros [p t] Hp Hn. unfold ts'. destruct r; [|assumption]. apply activate_nd. apply ts_on_update_nonempty.
+    destruct (Icov _ _ Hp) as [y [_ Hy]]. intros E. rewrite E in Hy. discriminate. }
+  assert (Hact : forall pa, In pa (pend rf ++ cov rf) -> is_active (ts s) = true -> is_active ts' = true).
+  { intros [p t] Hp Ha. unfold ts'. destruct r; [|assumption]. apply activate_idem. apply on_update_active; [|assumption].
+    destruct (Icov _ _ Hp) as [y [_ Hy]]. intros E. rewrite E in Hy. discriminate. }
+  assert (Hhit : forall pa, In pa (pend rf ++ cov rf) -> r <> None -> is_active ts' = true).
+  { intros [p t] Hp Hr. unfold ts'. destruct r; [|contradiction]. apply activate_active. apply ts_on_update_nonempty.
+    destruct (Icov _ _ Hp) as [y [_ Hy]]. intros E. rewrite E in Hy. discriminate. }
+  (* a covered packet that is owed again: the newest frame travelled in a lost ack-eliciting packet *)
+  assert (Hre : forall pa, In pa (cov rf) -> covered pa = false -> is_active ts' = true).
+  { intros [p t] Hp Hc.
+    assert (Hne : cov rf <> []) by (intros E; rewrite E in Hp; destruct Hp).
+    destruct (Ilast Hne) as (h & tl & Hf & Hcv & He).
+    destruct (Hcv _ _ Hp) as [_ Hcc].
+    assert (Hl : j_lost (mark lo hi h) = true).
+    { unfold covered, frames' in Hc. rewrite Hf in Hc. cbn [map existsb] in Hc.
+      apply orb_false_iff in Hc as [Hc _]. unfold covers in Hc.
+      destruct (mark_same lo hi h) as (_ & Erl & Eall & Etime & _). rewrite Erl, Eall, Etime in Hc. cbn [fst snd] in Hc.
+      destruct (j_lost (mark lo hi h)); [reflexivity|]. cbn [negb andb] in Hc.
+      destruct Hcc as [Hin|[Hal Hle]].
+      - rewrite Hin in Hc. discriminate.
+      - rewrite Hal in Hc. apply N.leb_le in Hle. rewrite Hle in Hc. rewrite orb_true_r in Hc. discriminate. }
+    assert (Hh : In h (frames rf)) by (rewrite Hf; left; reflexivity).
+    apply mark_lost in Hl as [Hl|[Hel Hrg]].
+    - specialize (He (Ile h Hh Hl)). rewrite Hl in He. apply (Hact (p, t)); [apply in_app_r; assumption|assumption].
+    - specialize (He Hel). destruct (j_lost h) eqn:El.
+      + apply (Hact (p, t)); [apply in_app_r; assumption|assumption].
+      + apply (Hhit (p, t)); [apply in_app_r; assumption|]. apply (proj1 (Ala _ _ He)). assumption. }
+  assert (Hdl' : owes_ok (max_ack_delay (cfg s)) s' (pend rf')).
+  { intros p t Hp. rewrite Hpend' in Hp. apply in_app_or in Hp as [Hp|Hp].
+    - apply filter_In in Hp as [Hp Hc]. apply negb_true_iff in Hc. left. rewrite Hts. eapply Hre; eassumption.
+    - destruct (Idl _ _ Hp) as [H|[d [Hd Hle]]].
+      + left. rewrite Hts. apply (Hact (p, t)); [apply in_app_l; assumption|assumption].
+      + right. exists d. rewrite Htm. auto. }
+  split; [|split; [assumption|]].
+  - constructor; rewrite ?Hcfg, ?Hrng, ?Htm, ?Hprocd', ?Hnproc', ?Hlack', ?Hmt; auto.
+    + (* i_nd *)
+      rewrite Hts. intros Hne. destruct (pend rf') as [|[p t] tlp] eqn:Ep; [contradiction|].
+      assert (Hin : In (p, t) (filter (fun pa => negb (covered pa)) (cov rf) ++ pend rf)) by (rewrite <- Hpend'; left; reflexivity).
+      apply in_app_or in Hin as [Hin|Hin].
+      * apply filter_In in Hin as [Hin Hc]. apply negb_true_iff in Hc. apply active_nd. eapply Hre; eassumption.
+      * apply (Hnd (p, t)); [apply in_app_l; assumption|]. apply Ind. intros E. rewrite E in Hin. destruct Hin.
+    + intros p t Hp. apply Icov with t. apply Hmem. assumption.
+    + intros Hn p t Hp. apply Iin with t; [assumption|]. apply Hmem. assumption.
+    + (* i_aet *)
+      intros pk x Hs. rewrite Hst, Hlat in Hs. destruct (Iaet pk x (Asub _ Hs)) as [f [Hf [Hp Hl]]].
+      exists (mark lo hi f). rewrite Hframes'. split; [apply in_map; assumption|].
+      destruct (mark_same lo hi f) as (E1 & E2 & _). rewrite E1, E2. auto.
+    + (* i_lostelic *)
+      rewrite Hframes'. intros f' Hf' Hl. apply in_map_iff in Hf' as [f [<- Hf]].
+      destruct (mark_same lo hi f) as (_ & _ & _ & _ & E5). rewrite E5.
+      apply mark_lost in Hl as [Hl|[Hel _]]; [apply Ile; assumption|assumption].
+    + (* i_last *)
+      rewrite Hcov', Hframes'. intros Hc. pose proof (filter_nil_ne _ _ Hc) as Hc0.
+      destruct (Ilast Hc0) as (h & tl & Hf & Hcv & He).
+      exists (mark lo hi h), (map (mark lo hi) tl). split; [unfold frames'; rewrite Hf; reflexivity|].
+      destruct (mark_same lo hi h) as (E1 & E2 & E3 & E4 & E5).
+      split.
+      * intros p t Hp. apply filter_In in Hp as [Hp _]. destruct (Hcv _ _ Hp) as [H1 H2].
+        rewrite E2. split; [assumption|]. unfold content_covers in *. rewrite E2, E3, E4. assumption.
+      * rewrite E5, E1, E2. intros Hel. specialize (He Hel).
+        destruct (filter covered (cov rf)) as [|[p t] tlc] eqn:Efc; [contradiction|].
+        assert (Hpin : In (p, t) (cov rf)).
+        { assert (In (p, t) (filter covered (cov rf))) by (rewrite Efc; left; reflexivity). apply filter_In in H as [H _]. assumption. }
+        assert (Hh : In h (frames rf)) by (rewrite Hf; left; reflexivity).
+        destruct (j_lost (mark lo hi h)) eqn:El.
+        -- rewrite Hts. apply mark_lost in El as [El|[_ Hrg]].
+           ++ rewrite El in He. apply (Hact (p, t)); [apply in_app_r; assumption|assumption].
+           ++ destruct (j_lost h) eqn:El0.
+              ** apply (Hact (p, t)); [apply in_app_r; assumption|assumption].
+              ** apply (Hhit (p, t)); [apply in_app_r; assumption|]. apply (proj1 (Ala _ _ He)). assumption.
+        -- apply (mark_notlost lo hi h Hel) in El as [El0 Hnr]. rewrite El0 in He.
+           rewrite Hlat. rewrite <- He. apply (proj2 (Ala _ _ He)). assumption.
+  - unfold check. cbn [andb]. apply deadline_from. assumption.
+Qed.
+
+(* ---------------- the judgement accepts every run of the model ---------------- *)
+
+Definition op_wf (o : op) : Prop := match o with OProc _ pn _ => pn < varint_max | _ => True end.
+
+Lemma parse_out_other : forall o s' rest, (forall dt ctl pkt, o <> OTx dt ctl pkt) ->
+  parse_out o (status s' ++ rest) = Some (None, optz (timer s'), bz (is_active (ts s')), rest).
+Proof. intros [| | | |] s' rest H; try reflexivity. exfalso. eapply H. reflexivity. Qed.
+
+Lemma bz_eqb1 : forall b, (bz b =? 1)%Z = b.
+Proof. intros [|]; reflexivity. Qed.
+
+Lemma parse_out_tx : forall dt ctl pkt f s' rest,
+  (forall fr, f = Some fr -> f_ranges fr <> []) ->
+  parse_out (OTx dt ctl pkt) ((enc_frame f ++ status s') ++ rest)
+  = Some (fo_of f, optz (timer s'), bz (is_active (ts s')), rest).
+Proof.
+  intros dt ctl pkt [fr|] s' rest Hne; [|reflexivity].
+  specialize (Hne fr eq_refl). unfold enc_frame.
+  set (e3 := match f_ecn fr with Some (a, b, c) => [Nz a; Nz b; Nz c] | None => [-1; -1; -1]%Z end).
+  assert (He3 : exists x y z, e3 = [x; y; z]) by (unfold e3; destruct (f_ecn fr) as [[[? ?] ?]|]; eauto).
+  destruct He3 as (x & y & z & ->).
+  cbn [app parse_out]. replace (1 =? 0)%Z with false by reflexivity.
+  destruct (f_ranges fr) as [|r0 t0] eqn:Er; [contradiction|].
+  replace (Z.of_nat (length (r0 :: t0)) <=? 0)%Z with false by (symmetry; apply Z.leb_gt; cbn [length]; lia).
+  rewrite Nat2Z.id. fold (enc_ranges (r0 :: t0)). rewrite <- !app_assoc. rewrite take_ranges_enc.
+  cbn [status app fo_of]. rewrite bz_eqb1, Er. reflexivity.
+Qed.
+
+Lemma steps_cons' : forall now s o t,
+  steps now s (o :: t) =
+  let '(now', s', f) := step_core now s o in
+  ((match o with OTx _ _ _ => enc_frame f | _ => [] end) ++ status s') ++ steps now' s' t.
+Proof. intros. cbn [steps]. unfold step. destruct (step_core now s o) as [[now' s'] f]. reflexivity. Qed.
+
+Lemma judge_steps : forall ops now s rf, Inv now s rf -> Forall op_wf ops ->
+  judge_from (max_ack_delay (cfg s)) (ranges_limit (cfg s)) now rf ops (steps now s ops) = true.
+Proof.
+  induction ops as [|o t IH]; intros now s rf I Hwf; [reflexivity|].
+  inversion Hwf as [|? ? Ho Ht]; subst.
+  rewrite steps_cons'. cbn [judge_from].
+  destruct o as [dt pn fl|dt ctl pkt|a b|a b|dt]; cbn [step_core].
+  - destruct (step_proc now s rf dt pn fl I Ho) as (I' & Hc & Hck).
+    cbn [app]. rewrite parse_out_other by (intros; discriminate). cbn [op_time].
+    rewrite Hck. cbn [andb]. rewrite <- Hc at 1 2. apply IH; assumption.
+  - destruct (transmit s (now + dt) (N.land ctl 3) (N.land (N.shiftr ctl 2) 3) pkt (N.testbit ctl 4)
+                (negb (N.testbit ctl 5)) (negb (N.testbit ctl 6))) as [s' f] eqn:Etx.
+    destruct (step_tx now s rf dt ctl pkt _ _ _ _ s' f I Etx) as (I' & Hc & Hck).
+    rewrite parse_out_tx.
+    2:{ intros fr ->. apply transmit_some in Etx. destruct Etx as [Tne Tfr]. rewrite Tfr.
+        intros E. apply Tne. apply (f_equal (@rev _)) in E. rewrite rev_involutive in E. exact E. }
+    cbn [op_time]. rewrite Hck. cbn [andb]. rewrite <- Hc at 1 2. apply IH; assumption.
+  - destruct (step_ack now s rf a b I) as (I' & Hc & Hck).
+    cbn [app]. rewrite parse_out_other by (intros; discriminate). cbn [op_time].
+    rewrite Hck. cbn [andb]. rewrite <- Hc at 1 2. apply IH; assumption.
+  - destruct (step_loss now s rf a b I) as (I' & Hc & Hck).
+    cbn [app]. rewrite parse_out_other by (intros; discriminate). cbn [op_time].
+    rewrite Hck. cbn [andb]. rewrite <- Hc at 1 2. apply IH; assumption.
+  - destruct (step_timeout now s rf dt I) as (I' & Hc & Hck).
+    cbn [app]. rewrite parse_out_other by (intros; discriminate). cbn [op_time ref_step].
+    rewrite Hck. cbn [andb]. rewrite <- Hc at 1 2. apply IH; assumption.
+Qed.
+
+Lemma init_inv : forall c, 1 <= ranges_limit c -> Inv 1 (init c) ref0.
+Proof.
+  intros c H. constructor; cbn [init cfg rng timer ts stable latest ref0 procd nproc pend cov frames lacked app]; try lia; auto.
+  - constructor.
+  - unfold len; cbn; lia.
+  - intros x Hx; discriminate.
+  - intros x [].
+  - intros d Hd; discriminate.
+  - intros p t [].
+  - intros p t [].
+  - intros p t [].
+  - intros pkt x [Hs|Hs]; discriminate.
+  - intros Hc; contradiction.
+Qed.
+
+Lemma parse_wf : forall fuel c, Forall (fun z => (z < 4611686018427387903)%Z) c -> Forall op_wf (parse fuel c).
+Proof.
+  induction fuel as [|f IH]; intros c Hc; [constructor|].
+  destruct c as [|k r]; [constructor|]. cbn [parse].
+  inversion Hc as [|? ? Hk Hr]; subst.
+  assert (Htl : forall l, Forall (fun z => (z < 4611686018427387903)%Z) l -> Forall (fun z => (z < 4611686018427387903)%Z) (tl l))
+    by (intros [|? ?] H; [constructor|inversion H; assumption]).
+  assert (Hhd : forall l, Forall (fun z => (z < 4611686018427387903)%Z) l -> zN (hd 0%Z l) < varint_max).
+  { intros [|z l] H; cbn [hd]; [unfold zN, varint_max; cbn; lia|]. inversion H; subst. unfold zN, varint_max. lia. }
+  destruct (k mod 5)%Z as [|[p|p|]|]; try (constructor; [exact I|apply IH; auto]).
+  all: try (constructor; [cbn [op_wf]; auto|apply IH; auto]).
+  all: destruct p as [p|p|]; try (constructor; [cbn [op_wf]; auto|apply IH; auto]).
+Qed.
+
+Lemma header_limit : forall c, 1 <= ranges_limit (fst (header c)).
+Proof.
+  intros [|sel r]; cbn [header fst]; [unfold default_settings, ack_ranges_limit; cbn; lia|].
+  destruct (sel mod 3)%Z as [|[p|p|]|]; cbn [fst ranges_limit default_settings early_settings];
+    try (unfold ack_ranges_limit; lia); try lia.
+  all: generalize (zN (hd 0%Z (tl (tl (tl r)))) mod 255); intros; lia.
+Qed.
+
+Lemma header_tail_wf : forall c, Forall (fun z => (z < 4611686018427387903)%Z) c ->
+  Forall (fun z => (z < 4611686018427387903)%Z) (snd (header c)).
+Proof.
+  assert (Htl : forall l, Forall (fun z => (z < 4611686018427387903)%Z) l -> Forall (fun z => (z < 4611686018427387903)%Z) (tl l))
+    by (intros [|? ?] H; [constructor|inversion H; assumption]).
+  intros [|sel r] H; cbn [header snd]; [constructor|]. inversion H; subst.
+  destruct (sel mod 3)%Z as [|[p|p|]|]; cbn [snd]; auto.
+Qed.
+
+Theorem judge_run : forall c, Forall (fun z => (z < 4611686018427387903)%Z) c -> judge c (run c) = true.
+Proof.
+  intros c Hc. unfold judge, run. pose proof (header_limit c) as Hl. pose proof (header_tail_wf c Hc) as Ht.
+  destruct (header c) as [cfg0 r]. cbn [fst snd] in *.
+  apply (judge_steps (parse (length r) r) 1 (init cfg0) ref0 (init_inv cfg0 Hl)).
+  apply parse_wf. assumption.
+Qed.
+
+(* ---------------- ack_deadline for every operation sequence ---------------- *)
+
+(* the model together with the reference bookkeeping fed by the model's own frames *)
+Fixpoint exec (now : N) (s : state) (rf : ref) (ops : list op) : N * state * ref :=
+  match ops with
+  | [] => (now, s, rf)
+  | o :: t =>
+      let '(now', s', f) := step_core now s o in
+      exec now' s' (ref_step (ranges_limit (cfg s)) now' rf o (fo_of f)) t
+  end.
+
+Lemma step_inv : forall now s rf o now' s' f, Inv now s rf -> op_wf o ->
+  step_core now s o = (now', s', f) ->
+  Inv now' s' (ref_step (ranges_limit (cfg s)) now' rf o (fo_of f)) /\ cfg s' = cfg s.
+Proof.
+  intros now s rf o now' s' f I Ho Hs.
+  destruct o as [dt pn fl|dt ctl pkt|a b|a b|dt]; cbn [step_core] in Hs.
+  - inversion Hs; subst. destruct (step_proc now s rf dt pn fl I Ho) as (I' & Hc & _). split; assumption.
+  - destruct (transmit s (now + dt) (N.land ctl 3) (N.land (N.shiftr ctl 2) 3) pkt (N.testbit ctl 4)
+                (negb (N.testbit ctl 5)) (negb (N.testbit ctl 6))) as [s1 f1] eqn:Etx.
+    inversion Hs; subst. destruct (step_tx now s rf dt ctl pkt _ _ _ _ s' f I Etx) as (I' & Hc & _). split; assumption.
+  - inversion Hs; subst. destruct (step_ack now' s rf a b I) as (I' & Hc & _). split; assumption.
+  - inversion Hs; subst. destruct (step_loss now' s rf a b I) as (I' & Hc & _). split; assumption.
+  - inversion Hs; subst. destruct (step_timeout now s rf dt I) as (I' & Hc & _). split; assumption.
+Qed.
+
+Lemma exec_inv : forall ops now s rf, Inv now s rf -> Forall op_wf ops ->
+  let '(now', s', rf') := exec now s rf ops in Inv now' s' rf' /\ cfg s' = cfg s.
+Proof.
+  induction ops as [|o t IH]; intros now s rf I Hwf; [split; [assumption|reflexivity]|].
+  inversion Hwf as [|? ? Ho Ht]; subst. cbn [exec].
+  destruct (step_core now s o) as [[now1 s1] f] eqn:Es.
+  destruct (step_inv _ _ _ _ _ _ _ I Ho Es) as [I1 Hc].
+  specialize (IH now1 s1 _ I1 Ht). destruct (exec now1 s1 _ t) as [[now' s'] rf'].
+  destruct IH as [I' Hc']. split; [assumption|congruence].
+Qed.
+
+(* after every sequence of operations: every ack-eliciting packet that is owed an acknowledgement
+   (processed, not covered by an ACK frame still in flight, above every acknowledged ACK frame's largest)
+   has the manager demanding a transmission, or the delay timer armed no later than its arrival +
+   max_ack_delay *)
+Theorem ack_deadline : forall c ops, 1 <= ranges_limit c -> Forall op_wf ops ->
+  let '(now', s', rf') := exec 1 (init c) ref0 ops in
+  forall p t, In (p, t) (pend rf') ->
+    is_active (ts s') = true \/ exists d, timer s' = Some d /\ d <= t + max_ack_delay c.
+Proof.
+  intros c ops Hl Hwf. pose proof (exec_inv ops 1 (init c) ref0 (init_inv c Hl) Hwf) as H.
+  destruct (exec 1 (init c) ref0 ops) as [[now' s'] rf']. destruct H as [I Hc].
+  cbn [init cfg] in Hc. rewrite <- Hc. exact (i_dl _ _ _ I).
+Qed.
+
+(* ---------------- capacity eviction drops only the lowest numbers ---------------- *)
+
+Definition Asc (l : ranges) : Prop := StronglySorted (fun r1 r2 => snd r1 < fst r2) l.
+
+Lemma in_ranges_ex : forall l y, in_ranges y l = true -> exists r, In r l /\ fst r <= y <= snd r.
+Proof.
+  intros l y H. unfold in_ranges in H. apply existsb_exists in H as [r [Hr Hy]].
+  apply andb_true_iff in Hy as [H1 H2]. apply N.leb_le in H1. apply N.leb_le in H2. exists r. auto.
+Qed.
+
+(* whatever insert_packet_number sheds lies in the lowest interval and below the inserted number; on an
+   ascending list it is below every number that is retained *)
+Theorem ranges_drop_only_lowest : forall l pn lim x, WF l -> len l <= lim -> 1 <= lim ->
+  in_ranges x l = true -> in_ranges x (insert_packet_number pn l lim) = false ->
+  (exists a b t, l = (a, b) :: t /\ a <= x <= b /\ b < pn /\
+                 (forall y, in_ranges y t = true -> in_ranges y (insert_packet_number pn l lim) = true)) /\
+  (Asc l -> forall y, in_ranges y (insert_packet_number pn l lim) = true -> x < y).
+Proof.
+  intros l pn lim x Hw Hl Hlim Hx Hnx.
+  destruct (ipn_cases l pn lim Hl Hlim) as [E|[(a & b & t & -> & Hb & E)|(a & b & t & -> & Hb & E)]]; rewrite E in *.
+  - rewrite (ins_keeps l pn x Hw Hx) in Hnx. discriminate.
+  - apply WF_cons in Hw as [Hab Ht].
+    assert (Hxab : a <= x <= b).
+    { apply inr_cons in Hx as [Hx|Hx]; [assumption|]. rewrite (ins_keeps t pn x Ht Hx) in Hnx. discriminate. }
+    split.
+    + exists a, b, t. repeat split; try lia. intros y Hy. apply ins_keeps; assumption.
+    + intros Has y Hy. apply ins_in in Hy as [->|Hy]; [lia|].
+      apply in_ranges_ex in Hy as [r [Hr Hyr]]. inversion Has as [|? ? _ Hall]; subst.
+      rewrite Forall_forall in Hall. specialize (Hall r Hr). cbn [snd] in Hall. lia.
+  - rewrite Hx in Hnx. discriminate.
 Qed.
